@@ -5,7 +5,7 @@ SRC = 'C13.cpp'
 
 INT_NAMES = dict(i8='int8', u8='uint8', i16='int16', u16='uint16', i32='int32', u32='uint32', i64='int64', u64='uint64',
                  i128='int128', u128='uint128', W100='wide_integer<100>', W100U='wide_integer<100,unsigned>',
-                 W200='wide_integer<200>', E1='elastic_integer<1>', E2='elastic_integer<2>', E3='elastic_integer<3>', E7='elastic_integer<7>', E31='elastic_integer<31>',
+                 W200='wide_integer<200>', E7N8='elastic_integer<7,int8_t>', OVU8='overflow_integer<uint8_t>', W7C='wide_integer<7,signed char>', E1='elastic_integer<1>', E2='elastic_integer<2>', E3='elastic_integer<3>', E7='elastic_integer<7>', E31='elastic_integer<31>',
                  OVN='overflow_integer<int>', RND='rounding_integer<int>')
 RADIX_E = list(range(-5, 6))
 RADIX_EQ = [-5, -3, -1, 0, 2, 5]
@@ -17,7 +17,7 @@ def programs(t, subset='all'):
     fb16 = 16 if t else 8
     ints, stat, sc8, scw, seam = [], [], [], [], []
     # (i) integers
-    for ty in ['i8', 'u8', 'E1', 'E2', 'E3', 'E7']:  # E1..E3: capacity 2, the smallest buffers to_chars_static ever uses
+    for ty in ['i8', 'u8', 'E1', 'E2', 'E3', 'E7', 'E7N8', 'OVU8', 'W7C']:  # E1..E3: capacity 2, the smallest buffers to_chars_static ever uses
         ints.append('I(%s, 16, "%s")' % (ty, INT_NAMES[ty]))
     for ty in ['i16', 'u16']:
         ints.append('I(%s, %d, "%s")' % (ty, fb16, INT_NAMES[ty]))
@@ -37,7 +37,7 @@ def programs(t, subset='all'):
     for rep in ['i8', 'u8']:
         for e in e8:
             sc8.append('S(%s, %d, 2, 8)' % (rep, e))
-        for radix in (3, 8, 10):
+        for radix in (3, 8, 10, 16):
             for e in (RADIX_E if t else RADIX_EQ):
                 sc8.append('S(%s, %d, %d, 8)' % (rep, e, radix))
     # wider reps
@@ -55,6 +55,9 @@ def programs(t, subset='all'):
             for e in es:
                 scw.append('S(%s, %d, 10, 8)' % (rep, e))
         scw.append('S(i32, -1, 8, 8)')
+        scw.append('S(i64, 1, 16, 8)')
+        scw.append('S(i32, 2, 16, 8)')
+        scw.append('S(i64, -3, 16, 8)')
         scw.append('S(i32, -1, 3, 8)')
         scw.append('S(i64, -20, 3, 8)')
     # (iii) the layout seam
@@ -103,7 +106,7 @@ def bound(t):
         scaled_reps_lattice=(['int32', 'uint32', 'int64', 'uint64', 'int128'] if t else ['int16', 'uint16', 'int32', 'uint32', 'int64', 'uint64', 'int128']),
         exponents_8bit='every integer in [-70,70]' if t else g.EXP,
         exponents_wider=g.EXP if t else g.EXPQ,
-        radix={'2': 'all of the above', '3,8,10': '8-bit reps, E in %s; a few int32/int64/uint16 programs' % (RADIX_E if t else RADIX_EQ)},
+        radix={'2': 'all of the above', '3,8,10,16': '8-bit reps, E in %s; a few int32/int64/uint16 programs' % (RADIX_E if t else RADIX_EQ)},
         buffer_lengths='every length 0..max(to_chars_capacity, longest numeral of the type in the base)+2',
         seam='to_chars_positive: 92 digit strings of 1..19 digits x exponents -95..95 x lengths 0..40',
         to_chars_static_base=dict(types=['int8', 'uint8', 'int16', 'uint16', 'int32', 'int64'] if t else ['int8', 'uint8', 'int32'], bases=[2, 3, 8, 16, 36] if t else [2, 8, 16]),
